@@ -309,6 +309,15 @@ def coindexing(ctx, res, member, err, dids, IDPAIRS, rule, raw_dids=None):
     dids = fuse_elems(split_comp_ite(dids))
     sel_e, sel_d = _index_sets(err), _index_sets(dids)
     ok = set(sel_e) == set(sel_d)
+    if not ok and sel_e and sel_d:
+        # both are filtered, by selectors this rule cannot identify with
+        # each other (a boolean mask here, itertools.compress there ...)
+        ctx.undecidable(rule, res.func, f"RPE[{member}]: error values and "
+                        f"delta_ids are both re-indexed, by selectors not "
+                        f"recognised as the same: "
+                        f"{[fmt(x)[:50] for x in sel_e]} / "
+                        f"{[fmt(x)[:50] for x in sel_d]}")
+        return
     ctx.ob(rule, res.func, ok,
            f"RPE[{member}]: error values and delta_ids are re-indexed "
            f"by the same index sets "
@@ -340,6 +349,27 @@ def coindexing(ctx, res, member, err, dids, IDPAIRS, rule, raw_dids=None):
     pd_ = per_element(plain[0]) if plain else None
     ok = ok and pd_ is not None and not pd_[3] and pd_[2] is IDPAIRS \
         and pd_[0] is tm.sub(T("elem", IDPAIRS, pd_[1]), const(1))
+    d0 = Interp.unname(dids)
+    if not ok and is_call_to(d0, "builtins.sorted", "builtins.reversed",
+                             "numpy.sort", "numpy.unique", "builtins.set") \
+            and d0.args[1]:
+        inner = per_element(Interp.unname(d0.args[1][0]))
+        if inner is not None and inner[2] is IDPAIRS:
+            ctx.ob(rule, res.func, False,
+                   f"RPE[{member}]: delta_ids is "
+                   f"{tm.callee_name(d0).split('.')[-1]}(...) of the pair "
+                   f"end indices: re-ordered (or de-duplicated) on its own, "
+                   f"while the error values stay in pair order — value k no "
+                   f"longer belongs to delta_ids[k]",
+                   key=f"{rule}:{member}:delta-ids", value=fmt(dids))
+            return
+    if not ok and not (pd_ is not None and pd_[2] is IDPAIRS):
+        # not a comprehension over id_pairs at all (zip(*id_pairs), an array
+        # column ...): no evidence either way
+        ctx.undecidable(rule, res.func, f"RPE[{member}]: delta_ids is not "
+                        f"built by a comprehension over id_pairs: "
+                        f"{fmt(dids)[:120]}")
+        return
     ctx.ob(rule, res.func, ok,
            f"RPE[{member}]: delta_ids = [j for (i, j) in id_pairs], "
            f"unfiltered, in order" if ok else
@@ -381,6 +411,25 @@ def coindexing(ctx, res, member, err, dids, IDPAIRS, rule, raw_dids=None):
             okc = src in sizes and any(
                 any(x is sel for x in s_.walk()) for s_ in sizes
                 if s_ is not src)
+        cu = Interp.unname(cond_d)
+        if not okc and is_call_to(cu, ".any") and not cu.args[1] and any(
+                is_call_to(y, "numpy.where", "numpy.nonzero", ".nonzero",
+                           "numpy.flatnonzero", "numpy.argwhere")
+                for y in (tm.method_recv(cu) or tm.NONE).walk()):
+            ctx.ob(rule, res.func, False,
+                   f"RPE[{member}]: the re-indexing of delta_ids is guarded "
+                   f"by the truth value of an *index* array "
+                   f"({fmt(cond_d)[:80]}): .any() is False when the only "
+                   f"index is 0, so a zero-distance first pair is dropped "
+                   f"from the values but kept in delta_ids",
+                   key=f"{rule}:{member}:reindex-guard", guard=fmt(cond_d))
+            return
+        if not okc and (sides is None or src is None):
+            ctx.undecidable(rule, res.func, f"RPE[{member}]: the guard of "
+                            f"the delta_ids re-indexing is not a size "
+                            f"comparison this rule reads: "
+                            f"{fmt(cond_d)[:120]}")
+            return
         ctx.ob(rule, res.func, okc,
                f"RPE[{member}]: delta_ids is re-indexed exactly when "
                f"the filter removed something (selector size vs size of "
